@@ -227,7 +227,13 @@ where
 /// Converts a compressed GGLWE-to-GGSW key to a mutably-borrowed variant.
 pub trait GGLWEToGGSWKeyCompressedToMut {
     /// Returns a mutably-borrowed view.
+    ///
+    /// The view owns a copy of the seed tables: seeds written through it do not reach `self`,
+    /// use [`Self::seed_mut`] for that.
     fn to_mut(&mut self) -> GGLWEToGGSWKeyCompressed<&mut [u8]>;
+
+    /// Returns the seed table of the `i`-th compressed GGLWE of `self`.
+    fn seed_mut(&mut self, i: usize) -> &mut Vec<[u8; 32]>;
 }
 
 impl<D: DataMut> GGLWEToGGSWKeyCompressedToMut for GGLWEToGGSWKeyCompressed<D>
@@ -238,5 +244,9 @@ where
         GGLWEToGGSWKeyCompressed {
             keys: self.keys.iter_mut().map(|c| c.to_mut()).collect(),
         }
+    }
+
+    fn seed_mut(&mut self, i: usize) -> &mut Vec<[u8; 32]> {
+        &mut self.keys[i].seed
     }
 }
